@@ -1,5 +1,6 @@
-(* C20 -- extraction of the exact Hessenberg determinant oracle and of the HEAD error-vector model. *)
+(* C20 -- extraction of the exact Hessenberg determinant oracle, of the HEAD error-vector model and of the
+   coefficient-store model of the matrix polynomial. *)
 Require Import ExtrOcamlBasic ExtrOcamlNativeString.
 Require Import ZArith.
-Require Import MPSV.Hess.HessModel MPSV.Hess.HessGauss MPSV.Hess.HessDyadic.
-Extraction "../ocaml/hess.ml" hess_det_gauss dhess_coded_gauss hess_bound_gauss modup mhess_head_dy Z.add Z.mul Z.opp Z.compare.
+Require Import MPSV.Hess.HessModel MPSV.Hess.HessGauss MPSV.Hess.HessDyadic MPSV.Hess.MpolyModel MPSV.Hess.MpolyGauss.
+Extraction "../ocaml/hess.ml" hess_det_gauss dhess_coded_gauss hess_bound_gauss modup mhess_head_dy mpoly_run Z.add Z.mul Z.opp Z.compare.
